@@ -833,9 +833,16 @@ Extra:\n{self.extra_map}
                     )
 
                 bip32_derivs = []
+                xfps_seen = []
                 for named_pub in psbt_out.named_pubs.values():
                     # Match to corresponding xpub to validate that this xpub is a participant in this change output
                     xfp = named_pub.root_fingerprint.hex()
+                    # every cosigner must supply exactly one key of a change output
+                    if xfp in xfps_seen:
+                        raise SuspiciousTransaction(
+                            f"Root fingerprint {xfp} supplies more than one key of output #{cnt}"
+                        )
+                    xfps_seen.append(xfp)
 
                     try:
                         hdpub = hdpubkey_map[xfp]
